@@ -471,6 +471,8 @@ class FieldTypeConstraint(Constraint):
              self.report(path, value, "a JSONPath", problems)
         elif self.type == "referencePath"and not JSONPathChecker().is_reference_path(value):
              self.report(path, value, "a Reference Path", problems)
+        elif self.type == "timestamp" and not (isinstance(value, str) and value):
+            self.report(path, value, "an RFC3339 timestamp", problems)
         elif self.type == "timestamp":
             # Preprocess RFC3339 into template strptime format
             if value[-1] == "Z":
